@@ -62,7 +62,7 @@ func (f *Rassoc) Call(s *slip.Scope, args slip.List, depth int) (found slip.Obje
 	item := args[pos]
 	pos++
 	alist, ok := args[pos].(slip.List)
-	if !ok {
+	if !ok && args[pos] != nil {
 		slip.TypePanic(s, depth, "alist", args[pos], "list")
 	}
 	pos++
